@@ -58,6 +58,7 @@ pub fn run(obligation: &str) -> i32 {
     if ["C02.link_components_of", "C05.link_components_of", "C02.has_components_of", "C05.lemma.", "C02.lemma."].iter().any(|p| obligation.starts_with(p)) { c02_components_of(&mut rep); return rep.finish("C02_components_of"); }
     if obligation.starts_with("C02.needs_unnesting") { c02_needs_unnesting(&mut rep); return rep.finish("C02_unnesting"); }
     if obligation.starts_with("C02.") || obligation.starts_with("C05.") { c02_c05_assembly(&mut rep); return rep.finish("C02_C05_assembly"); }
+    if obligation.starts_with("C04.find_name") || obligation.starts_with("lemma.C07_lookup") { c04_find_name(&mut rep); return rep.finish("C07_lookup"); }
     if ["C04.constraint_link", "C04.set_link", "C04.element_link"].iter().any(|p| obligation.starts_with(p)) { c04_link(&mut rep); return rep.finish("C04_link"); }
     if ["C04.constraint_has_reference", "C04.set_has_reference", "C04.element_has_reference", "C04.type_has_reference", "C04.is_elsewhere_declared", "C04.optionality_default"].iter().any(|p| obligation.starts_with(p)) { c04_references(&mut rep); return rep.finish("C04_references"); }
     if obligation.starts_with("C04.") { c04_bounds(&mut rep); return rep.finish("C04_bounds"); }
@@ -511,6 +512,35 @@ fn gen_integer_values(rep: &mut Rep) {
         }
         rep.check("C06.is_builtin_type.everything_but_references_selections_and_class_fields", t.contains(&rt) == is_ref, d);
     } } }
+}
+
+/// find_tld_or_enum_value_by_name on the real crate: 1..=3 definitions out of {Alpha, Beta, Gamma, hi (a value assignment)} x each an INTEGER with named numbers or an ENUMERATED,
+/// declaring `hi` or not, with different numbers, x every governing type name (incl. one that is not defined); reference: the governing type's own number first, then the first
+/// declaring type in key order, a value assignment named `hi` before both
+fn c04_find_name(rep: &mut Rep) {
+    use rasn_compiler::verif_hooks::hook_find_name;
+    let names = ["Alpha", "Beta", "Gamma"];
+    // per type: 0 absent, 1 INTEGER declaring hi, 2 INTEGER not declaring it, 3 ENUMERATED declaring hi, 4 ENUMERATED not declaring it
+    for a in 0..5u8 { for b in 0..5u8 { for c in 0..5u8 { for with_value in [false, true] { for gov in ["Alpha", "Beta", "Gamma", "Delta"] {
+        let mut defs: Vec<(String, u8, Vec<(String, i128)>)> = vec![];
+        for (i, k) in [a, b, c].into_iter().enumerate() {
+            if k == 0 { continue; }
+            let number = 10 * (i as i128 + 1);
+            let items = if k == 1 || k == 3 { vec![("lo".to_string(), 1), ("hi".to_string(), number)] } else { vec![("lo".to_string(), 1), ("other".to_string(), number)] };
+            defs.push((names[i].to_string(), if k <= 2 { 0 } else { 1 }, items));
+        }
+        if with_value { defs.push(("hi".to_string(), 2, vec![("hi".to_string(), 777)])); }
+        let got = hook_find_name(gov, "hi", &defs);
+        let declares = |i: usize| [a, b, c][i] == 1 || [a, b, c][i] == 3;
+        let gi = names.iter().position(|n| *n == gov);
+        let d = || format!("definitions={:?} governing_type={gov} name=hi -> {got:?}", defs.iter().map(|(n, k, it)| format!("{n}:{}{:?}", ["INTEGER", "ENUMERATED", "value"][*k as usize], it)).collect::<Vec<_>>());
+        if with_value { rep.check("C04.find_name.a_value_assignment_of_that_name_is_the_value", got == Some(777), d); continue; }
+        match gi { Some(g) if declares(g) => rep.check("C04.find_name.the_governing_types_own_number_wins_over_every_other_declaration_of_the_name", got == Some(10 * (g as i128 + 1)), d),
+            _ => { let first = (0..3).find(|i| declares(*i)).map(|i| 10 * (i as i128 + 1));
+                   rep.check("C04.find_name.without_a_governing_declaration_the_first_declaring_type_answers_and_none_is_overlooked", got == first, d); } }
+        rep.check("C04.find_name.no_governing_answer_so_far", gi.map_or(true, |g| !declares(g)) || got == gi.map(|g| 10 * (g as i128 + 1)), d);
+        rep.check("C04.find_name.no_answer_at_all_so_far", got.is_some() == (0..3).any(declares), d);
+    } } } } }
 }
 
 /// format_default_methods on the real crate: lists of 0..=4 components, each required / OPTIONAL / DEFAULT, of type BOOLEAN, INTEGER,
